@@ -54,11 +54,24 @@ def directed():
     out.append({"np": 2, "comms": w, "a": a, "d": d, "mode": "mixed", "phases": ["directed/truncate"], "ops": [
         [[6, 20000], [1, 0, 0, 1, 1, 600, 2021, -1], [7]],
         [[2, 0, 0, 0, 1, 100, -1], [7]]]})
-    # the same three with async-small-thresh = 0 must be clean
+    # two-mailbox defect seen by a probe with MPI_ANY_TAG
+    out.append({"np": 2, "comms": w, "a": a, "d": d, "mode": "mixed", "phases": ["directed/probe"], "ops": [
+        [[1, 3, 0, 1, 1, 600, 2031, 0], [1, 3, 0, 1, 2, 10, 2032, 1], [5, 2, 2, 0, 1], [7]],
+        [[6, 20000], [4, 0, 0, 0, -1], [2, 0, 0, -2, -2, -2, -1], [2, 0, 0, 0, -1, 700, -1], [7]]]})
+    # the same four with async-small-thresh = 0 must be clean
     for c in list(out):
         c2 = json.loads(json.dumps(c))
         c2["a"], c2["mode"] = 0, "plain"
         out.append(c2)
+    # truncation completed by MPI_Test / MPI_Waitany: status says MPI_ERR_TRUNCATE, the call returns MPI_SUCCESS
+    for api in (4, 3):
+        out.append({"np": 2, "comms": w, "a": 0, "d": 65536, "mode": "plain", "phases": ["directed/trunc-rc"], "ops": [
+            [[1, 0, 0, 1, 1, 8, 2041, -1], [7]],
+            [[2, 1, 0, 0, 1, 4, 0], [5, api, 1, 0], [7]]]})
+    # MPI_Testall polled until completion loses the status of the request that finished during an earlier call
+    out.append({"np": 2, "comms": w, "a": 0, "d": 65536, "mode": "plain", "phases": ["directed/testall"], "ops": [
+        [[1, 0, 0, 1, 1, 8, 2051, -1], [6, 20000], [1, 0, 0, 1, 2, 8, 2052, -1], [7]],
+        [[2, 1, 0, 0, 1, 8, 0], [2, 1, 0, 0, 2, 8, 1], [5, 5, 2, 0, 1], [7]]]})
     return out
 
 
@@ -66,7 +79,7 @@ def run_case(ctx, exe, tmp, case, name):
     path = os.path.join(tmp, name + ".case")
     G.write_case(case, path)
     cfg = ["--cfg=smpi/async-small-thresh:%d" % case["a"], "--cfg=smpi/send-is-detached-thresh:%d" % case["d"]]
-    res = mpi.smpirun(exe, case["np"], [path], timeout=300, cfg=cfg)
+    res = mpi.smpirun(exe, case["np"], [path], timeout=150, cfg=cfg)
     os.unlink(path)
     return res
 
@@ -82,7 +95,7 @@ def judge(ctx, case, res, witness):
         ctx.violation(key, what + "  [thresholds async=%d detached=%d, phases %s]" % (case["a"], case["d"], ",".join(case["phases"])),
                       witness)
     if not stats["complete"]:
-        if "Deadlock detected" in res.err or "Deadlock detected" in res.out:
+        if "Deadlock detected" in res.err or "Deadlock detected" in res.out or "STUCK " in res.out:
             ctx.violation("C28:deadlock:" + cfg, "SMPI reports a deadlock on a deadlock-free program (np=%d, thresholds async=%d detached=%d, "
                           "phases %s)" % (case["np"], case["a"], case["d"], ",".join(case["phases"])), witness)
         elif not any(k.startswith("C28:crash") for k, _ in vio):
